@@ -154,9 +154,13 @@ func Judge(ctx *core.Ctx, cases []*MsgCase, obs *Observations) {
 				// message at all; otherwise a function of message + surroundings
 				how := "-depend-on-surrounding-code,"
 				kinds := map[string]int{}
+				alone := map[string]bool{}
 				for _, s := range seen {
 					for kind := range s.In {
 						kinds[kind]++
+						if kind == "alone" {
+							alone[s.Obs.Key()] = true
+						}
 					}
 				}
 				for _, k := range kinds {
@@ -164,9 +168,23 @@ func Judge(ctx *core.Ctx, cases []*MsgCase, obs *Observations) {
 						how = "-vary-across-compiles,"
 					}
 				}
+				// an outcome of a compile history that a process compiling the
+				// message alone never shows: the process remembers something
+				if len(alone) == 1 {
+					for _, s := range seen {
+						for kind := range s.In {
+							if strings.HasPrefix(kind, "hist-") && !alone[s.Obs.Key()] {
+								how = "-depend-on-compile-history,"
+							}
+						}
+					}
+				}
 				feat := what + how + c.Feat
 				if how == "-depend-on-surrounding-code," {
 					feat = what + "-depend-on-surrounding-code" // whatever the body
+				}
+				if how == "-depend-on-compile-history," {
+					feat = what + "-depend-on-compile-history"
 				}
 				ctx.Violation(core.Sig{Family: "M2-names", Feature: feat},
 					fmt.Sprintf("%s compiles to different %s: %s; spec: %s", UnparseBody(c.Parts), what, strings.Join(desc, " / "), c.PhStr),
